@@ -332,7 +332,10 @@ def read_codec_features_csv(csvfile):
             such as too-small picture_bytes values or parameters not being
             permitted by the specified level.
     """
-    csv_columns = read_dict_list_csv(csvfile)
+    try:
+        csv_columns = read_dict_list_csv(csvfile)
+    except csv.Error as e:
+        raise InvalidCodecFeaturesError("Malformed CSV: {}".format(e))
 
     out = OrderedDict()
 
